@@ -1,3 +1,4 @@
+from dataclasses import fields
 from functools import lru_cache
 
 from tpmstream.spec.common.values import tpm_dataclass
@@ -33,6 +34,12 @@ class TPMS_PARAMS:
         new_type.__annotations__ = {**first_param, **other_params}
         new_type._encrypted = True
         return tpm_dataclass(new_type)
+
+    @classmethod
+    def can_be_encrypted(cls) -> bool:
+        """Parameter encryption applies to the first parameter and only if that is a TPM2B (sized buffer)."""
+        params = fields(cls)
+        return len(params) > 0 and params[0].type.__name__.startswith("TPM2B")
 
     @staticmethod
     def is_encrypted_params(fields_dict: any) -> bool:
